@@ -78,7 +78,13 @@ func vBind(maxUsers int) {
 	dn, pw := gldap.VStr("bindDN"), gldap.VStr("password")
 	id := gldap.VI64("msgid")
 	gldap.VAssume(id >= 0 && id < 1<<31)
-	x := gldap.VBindExchange(id, dn, pw)
+	// with at most one user entry also under a debug-level server logger (gldap then
+	// pretty-prints the request before decoding it and the response before writing it)
+	debug := false
+	if len(users) <= 1 {
+		debug = gldap.VBool("debugLogging")
+	}
+	x := gldap.VBindExchangeL(id, dn, pw, debug)
 	d.handleBind(vT{})(x.W, x.Req)
 	rs := x.Responses()
 	gldap.VAssert(len(rs) == 1, "exactly one bind response")
